@@ -139,93 +139,14 @@ func scanCheck(k *sg.Case, o sg.Op, res sg.Result, cfg []placed) {
 	k.C.Hit("oracle:find-vs-own-full-scan")
 }
 
-// transition is a directed history around ONE partial index whose filter looks at a field that is not an
-// index key: documents are moved into and out of the index filter by updates that leave the key unchanged, and
-// queried with filters that pin the filter field (so that the planner may use the partial index). Added after
-// the seeded change c11a (Swap skipping re-indexing when the key values are unchanged) slipped past the
-// random generator.
-func transition(c *lib.Ctx, rng *lib.RNG) ([]sg.Op, []placed) {
-	fields := []string{"a", "b"}
-	kf := lib.Pick(rng, fields)
-	ff := "a"
-	if kf == "a" {
-		ff = "b"
-	}
-	iv := func(n int) sg.Value { return sg.IntV(n) }
-	v := rng.Range(1, 3)
-	idx := sg.Op{Kind: "idx", Keys: []string{kf}, Filter: sg.NewMap(sg.S(ff), iv(v))}
-	if rng.Chance(1, 4) {
-		idx.Keys = []string{kf, "n.x"}
-	}
-	var ops []sg.Op
-	n := rng.Range(2, 5)
-	for id := 1; id <= n; id++ {
-		fv := rng.Range(0, 3)
-		d := sg.NewMap(sg.S("id"), iv(id), sg.S(kf), iv(rng.Range(0, 2)))
-		if rng.Chance(3, 4) {
-			d = d.Set(sg.S(ff), iv(fv))
-		}
-		ops = append(ops, sg.Op{Kind: "ins", Docs: []sg.Map{d}})
-	}
-	probe := func() {
-		var f sg.Map
-		switch rng.Intn(4) {
-		case 0:
-			f = sg.NewMap(sg.S(ff), iv(v), sg.S(kf), iv(rng.Range(0, 2)))
-		case 1:
-			f = sg.NewMap(sg.S(ff), iv(v), sg.S(kf), sg.NewMap(sg.S("$gte"), iv(rng.Range(0, 2))))
-		case 2:
-			f = sg.NewMap(sg.S(ff), iv(v), sg.S(kf), sg.NewMap(sg.S("$lte"), iv(rng.Range(0, 2))))
-		default:
-			f = sg.NewMap(sg.S(ff), iv(v))
-		}
-		ops = append(ops, sg.Op{Kind: "find", Filter: f})
-	}
-	steps := rng.Range(4, 12)
-	for i := 0; i < steps; i++ {
-		id := rng.Range(1, n)
-		byID := sg.NewMap(sg.S("id"), iv(id))
-		switch rng.Weighted([]int{5, 3, 2, 2, 1}) {
-		case 0: // into the filter, key untouched
-			ops = append(ops, sg.Op{Kind: "upd", Filter: byID, Update: sg.NewMap(sg.S("$set"), sg.NewMap(sg.S(ff), iv(v)))})
-			c.Hit("transition:into-filter")
-		case 1: // out of the filter, key untouched
-			ops = append(ops, sg.Op{Kind: "upd", Filter: byID, Update: sg.NewMap(sg.S("$set"), sg.NewMap(sg.S(ff), iv((v+1)%4)))})
-			c.Hit("transition:out-of-filter")
-		case 2:
-			ops = append(ops, sg.Op{Kind: "upd", Filter: byID, Update: sg.NewMap(sg.S("$unset"), sg.NewMap(sg.S(ff), sg.True()))})
-			c.Hit("transition:unset-filter-field")
-		case 3: // key moves, filter field untouched
-			ops = append(ops, sg.Op{Kind: "upd", Filter: byID, Update: sg.NewMap(sg.S("$set"), sg.NewMap(sg.S(kf), iv(rng.Range(0, 2))))})
-			c.Hit("transition:key-moves")
-		default: // update / delete THROUGH the partial index
-			f := sg.NewMap(sg.S(ff), iv(v), sg.S(kf), iv(rng.Range(0, 2)))
-			if rng.Bool() {
-				ops = append(ops, sg.Op{Kind: "upd", Filter: f, Update: sg.NewMap(sg.S("$set"), sg.NewMap(sg.S("n"), iv(rng.Range(0, 3))))})
-			} else {
-				ops = append(ops, sg.Op{Kind: "del", Filter: f})
-			}
-			c.Hit("transition:mutate-through-index")
-		}
-		probe()
-		if rng.Chance(1, 3) {
-			ops = append(ops, sg.Op{Kind: "find"})
-		}
-	}
-	at := 0
-	if rng.Chance(1, 4) {
-		at = rng.Intn(len(ops))
-	}
-	return ops, []placed{{at, idx}}
-}
-
 func history(c *lib.Ctx, sc *lib.Script, fails *[]lib.OracleFail, rng *lib.RNG, depth, steps, configs int) {
 	ops := genHistory(c, rng, depth, steps)
 	var directed []placed
 	directedUnique := false
 	switch rng.Weighted([]int{7, 2, 2}) {
 	case 1:
-		ops, directed = transition(c, rng)
+		tops, tidx, tat := (&sg.Gen{R: rng, Depth: depth, Hit: c.Hit}).PartialTransition()
+		ops, directed, directedUnique = tops, []placed{{tat, tidx}}, tidx.Unique
 		c.Hit("history:partial-index-transition")
 	case 2:
 		// unique first, plain later; documents lacking the unique key (seeded change c11e)
